@@ -24,6 +24,7 @@ mod robotics;
 mod snippet;
 mod scalarrt;
 mod yamlgen;
+mod anchors;
 
 pub struct Args {
     pub seed: u64,
@@ -65,6 +66,7 @@ fn main() {
         ("scalarrt", m) => scalarrt::run(m, &a),
         ("calls", m) => calls::run(m, &a),
         ("locs", m) => locs::run(m, &a),
+        ("anchors", m) => anchors::run(m, &a),
         _ => { eprintln!("unknown area/mode"); 2 }
     };
     std::process::exit(code);
